@@ -29,6 +29,10 @@ SPEC = os.path.join(VERIF, "spec")
 HARNESS = os.path.join(VERIF, "harness")
 EVIDENCE = os.path.join(VERIF, "evidence")
 REPLAYS = os.path.join(VERIF, "replays")
+if os.environ.get("VERIF_EVIDENCE_DIR"):
+    # mutation trials against a scratch tree must not overwrite the real evidence
+    EVIDENCE = os.path.join(os.environ["VERIF_EVIDENCE_DIR"], "evidence")
+    REPLAYS = os.path.join(os.environ["VERIF_EVIDENCE_DIR"], "replays")
 KNOWN = os.path.join(VERIF, "known_findings.json")
 REPO = os.environ.get("VERIF_REPO", "/repo")
 NCPU = os.cpu_count() or 4
